@@ -16,7 +16,7 @@ theorem rebuiltOrSame_mem (h0 h1 : Heap) (st : StepImp chkT h0 h1) (a : Addr) (t
       StepImp chkT h1 (rebuiltOrSame h1 a t fs).1 := by
   simp only [rebuiltOrSame]
   split
-  · exact ⟨_, readType_alloc_new _ _, ⟨rfl, rfl, rfl, rfl, rfl, rfl, rfl⟩, List.Sublist.refl _, step_alloc chkT _ _⟩
+  · exact ⟨_, readType_alloc_new _ _, ⟨rfl, rfl, rfl, rfl, rfl, rfl, rfl, rfl⟩, List.Sublist.refl _, step_alloc chkT _ _⟩
   · rename_i hb
     have heq := bne_false_eq hb
     obtain ⟨o', hr', hd, hk, _⟩ := st a _ (readType_read ht)
@@ -76,7 +76,7 @@ theorem onComposite_mem (v : Visitor) (hv : NoWrap v) (reg : List (String × Add
           ht List.filter_sublist
         exact compositeRest_mem (.vis p) hv reg ρ h0 a _ t0
           { t with fields := t.fields.filter fun fa => match fieldName h fa with | some fnm => p.fieldVis t.name fnm | none => true }
-          (readType_write_self h a _ (readType_lt' ht)) (hat.trans ⟨rfl, rfl, rfl, rfl, rfl, rfl, rfl⟩) hk
+          (readType_write_self h a _ (readType_lt' ht)) (hat.trans ⟨rfl, rfl, rfl, rfl, rfl, rfl, rfl, rfl⟩) hk
           ((hm.imp fun _ _ r => r.keep hw).sublist_right List.filter_sublist)
       · exact compositeRest_mem _ hv reg ρ h0 a h t0 t ht hat hk hm
   | heal => exact compositeRest_mem _ hv reg ρ h0 a h t0 t ht hat hk hm
@@ -124,7 +124,7 @@ theorem onInputObject_mem (v : Visitor) (hv : NoWrap v) (reg : List (String × A
         ht List.filter_sublist
       exact inputRest_mem (.vis p) hv reg ρ h0 a t.name _ t0
         { t with fields := t.fields.filter fun fa => match argName h fa with | some fnm => p.inputVis t.name fnm | none => true }
-        (readType_write_self h a _ (readType_lt' ht)) (hat.trans ⟨rfl, rfl, rfl, rfl, rfl, rfl, rfl⟩) hk
+        (readType_write_self h a _ (readType_lt' ht)) (hat.trans ⟨rfl, rfl, rfl, rfl, rfl, rfl, rfl, rfl⟩) hk
         ((hm.imp fun _ _ r => r.keep hw).sublist_right List.filter_sublist)
     · exact inputRest_mem _ hv reg ρ h0 a t.name h t0 t ht hat hk hm
   | heal => exact inputRest_mem _ hv reg ρ h0 a t.name h t0 t ht hat hk hm
